@@ -217,8 +217,9 @@ RsdpV2Max == 36
 \* ======================================================================================
 EfiDescSize == 40
 \* parameters of EFI memory-map item `it`: descriptor size d, version v, map length L
-EfiParams(mem, it) == [d |-> U32At(mem, it.at + 8), v |-> U32At(mem, it.at + 12), L |-> it.size - 16]
-EfiValid(p) == p.v = 1 /\ p.d >= EfiDescSize /\ p.d % 8 = 0 /\ p.L % p.d = 0
+\* (d saturates at Far; its residue modulo 8 is taken from the low byte, dlow)
+EfiParams(mem, it) == [d |-> U32At(mem, it.at + 8), dlow |-> Bytes(mem, it.at + 8, 1)[1], v |-> U32At(mem, it.at + 12), L |-> it.size - 16]
+EfiValid(p) == p.v = 1 /\ p.d >= EfiDescSize /\ p.dlow % 8 = 0 /\ p.L % p.d = 0
 EfiCount(p) == p.L \div p.d
 \* i-th descriptor (0-based): the 40 bytes at map offset i * d
 EfiItem(mem, it, p, i) ==
@@ -255,7 +256,7 @@ AcceptEfiHint(mem, it, k, dead, o) ==
 DesignEfiNew(mem, it) ==
   LET p == EfiParams(mem, it) IN
   IF p.v # 1 THEN Panic
-  ELSE IF p.d < EfiDescSize \/ p.d % 8 # 0 THEN Panic
+  ELSE IF p.d < EfiDescSize \/ p.dlow % 8 # 0 THEN Panic
   ELSE IF p.L % p.d # 0 THEN Panic
   ELSE Ok([entries |-> p.L \div p.d, d |-> p.d])
 DesignEfiNext(mem, it, st) ==      \* st = [i, entries, d]
